@@ -77,4 +77,26 @@ def run(ctx):
         t.raw(pure.ev_finalize(ida, idb, b"X" * 32, b"Y" * 32, b"K" * 32, pw))
         t.raw(pure.ev_finalize_sym(ida, b"X" * 32, b"Y" * 32, b"K" * 32, pw))
     traces.append(t.to_json())
+    # block-boundary lengths in EVERY argument position: SHA-256 blocks (55, 56, 63, 64, 65, 119, 128), powers of two and
+    # whole multiples of typical I/O chunk sizes (4096, 8192, 65536) with their neighbours - an implementation that
+    # streams or chunks its input is wrong exactly there
+    lens = [55, 56, 63, 64, 65, 119, 127, 128, 129, 255, 256, 257, 511, 512, 1023, 1024, 2048, 4095, 4096, 4097, 8191, 8192, 8193,
+            12288, 16384, 32768, 65535, 65536, 65537]
+    if not thorough:
+        lens = [n for k, n in enumerate(lens) if n in (64, 4096, 8192, 65536) or k % 3 == ctx.seed % 3]
+    for i in range(0, len(lens), 4):
+        t = Trace("finalize-block-lengths-%d" % i, uni)
+        for n in lens[i:i + 4]:
+            v = big[:n]
+            base = [b"a", b"b", b"X" * 32, b"Y" * 32, b"K" * 32, b"pw"]
+            for pos in range(6):
+                args = list(base)
+                args[pos] = v
+                t.raw(pure.ev_finalize(*args))
+            bases = [b"s", b"X" * 32, b"Y" * 32, b"K" * 32, b"pw"]
+            for pos in range(5):
+                args = list(bases)
+                args[pos] = v
+                t.raw(pure.ev_finalize_sym(*args))
+        traces.append(t.to_json())
     ctx.validate(traces, uni, what="transcript")
